@@ -303,7 +303,9 @@ def strat_sequences(tier):
                   st.sampled_from(['float', 'zero', 'negative', 'none', 'str', 'half'])).map(lambda t: {'fn': t[0], 'junk': t[1]}),
         st.tuples(st.sampled_from(['nm_to_ansi_j', 'nm_to_fringe']), st.integers(0, 12), st.integers(-14, 14),
                   st.sampled_from(['wrong-parity', 'm>n', 'float'])).map(lambda t: {'fn': t[0], 'n': t[1], 'm': t[2], 'junk': t[3]}))
-    return st.fixed_dictionaries({'ops': st.lists(st.one_of(good, good, good, junk), min_size=2, max_size=14), 'seed': st.integers(0, 10**6)})
+    return st.fixed_dictionaries({'ops': st.lists(st.one_of(good, good, good, junk), min_size=2, max_size=14), 'seed': st.integers(0, 10**6),
+                                  # how the arguments of the valid requests are passed: positionally, by keyword, or alternating
+                                  'argstyle': st.sampled_from(['positional', 'positional', 'keyword', 'alternating'])})
 
 
 class _Timeout(BaseException):
@@ -340,6 +342,15 @@ def check_sequences(case, ctx):
     refs = {'noll_to_nm': ref_noll, 'fringe_to_nm': ref_fringe, 'ansi_j_to_nm': ref_ansi, 'xy_j_to_mn': ref_xy}
     njunk = nraise = 0
     hist = []
+    style = case.get('argstyle', 'positional')
+    ctx.label('args:' + style)
+    kwnames = {'noll_to_nm': ('idx',), 'fringe_to_nm': ('idx',), 'ansi_j_to_nm': ('idx',), 'xy_j_to_mn': ('j',), 'nm_to_ansi_j': ('n', 'm'), 'nm_to_fringe': ('n', 'm')}
+
+    def request(name, fn, *args):
+        bykw = style == 'keyword' or (style == 'alternating' and len(hist) % 2 == 0)
+        if bykw:
+            return ctx.call(fn, **dict(zip(kwnames[name], args)))
+        return ctx.call(fn, *args)
     for op in case['ops']:
         fn = fns[op['fn']]
         if 'junk' in op:
@@ -364,14 +375,14 @@ def check_sequences(case, ctx):
             continue
         if 'j' in op:
             jj = op['j'] - 1 if (op['fn'] == 'ansi_j_to_nm' and op['j'] % 3 == 0) else op['j']     # ANSI counts from 0
-            got = ctx.call(fn, jj)
+            got = request(op['fn'], fn, jj)
             want = refs[op['fn']](jj)
             hist.append('%s(%d)' % (op['fn'], jj))
             ctx.require(_eq(got, want), op['fn'] + ':after-history', '%s(%d) = %r, expected %r, after %s' % (op['fn'], jj, got, want, ', '.join(hist[:-1]) or 'nothing'))
         else:
             n_, m_ = op['n'], (-op['m'] if op['neg'] else op['m'])
             hist.append('%s(%d, %d)' % (op['fn'], n_, m_))
-            got = ctx.call(fn, n_, m_)
+            got = request(op['fn'], fn, n_, m_)
             if op['fn'] == 'nm_to_ansi_j':
                 ok = (2 * got == n_ * (n_ + 2) + m_)
             else:
